@@ -2,12 +2,14 @@ module verif
 
 go 1.23
 
-require github.com/csgura/fp v0.0.0
+require (
+	github.com/csgura/fp v0.0.0
+	golang.org/x/tools v0.13.0
+)
 
 require (
 	golang.org/x/mod v0.12.0 // indirect
 	golang.org/x/sys v0.12.0 // indirect
-	golang.org/x/tools v0.13.0 // indirect
 )
 
 replace github.com/csgura/fp => /repo
